@@ -62,6 +62,9 @@
   { const G A = smooth::Map<const G>(a); const VTAN(G) T = Eigen::Map<const VTAN(G)>(t); smooth::Map<G> O(o); O = smooth::rplus(A, T); } \
   extern "C" void P##_man_rminus(const VSC(G) * a, const VSC(G) * b, VSC(G) * t)                            \
   { const G A = smooth::Map<const G>(a), B = smooth::Map<const G>(b); Eigen::Map<VTAN(G)> T(t); T = smooth::rminus(A, B); } \
+  /* in-place composition with an operand that aliases the destination (x *= x through two views of one buffer) */ \
+  extern "C" void P##_imul_self(VSC(G) * a)                                                                 \
+  { smooth::Map<G> A(a); smooth::Map<const G> B(a); A *= B; }                                               \
   extern "C" void P##_imul(VSC(G) * a, const VSC(G) * b)                                                    \
   { smooth::Map<G> A(a); smooth::Map<const G> B(b); A *= B; }                                               \
   extern "C" void P##_iadd(VSC(G) * a, const VSC(G) * t)                                                    \
